@@ -321,4 +321,207 @@ Proof.
     apply (h_res _ _ _ _ Hh Hn Hne r Hr l seen Hin).
 Qed.
 
+(* ------------------------------------------------------------------------------------------
+   The finality guard never refuses the head: a validation of j that begins while every
+   predecessor of j is final and ends without conflict leaves j finalisable (its timestamp is
+   newer than every rewind that can still cover j), whatever the other threads do meanwhile. *)
+
+Definition gate_ts (s : state) (j : nat) : nat := Nat.max (carried s) (lower s j).
+
+Definition gate (j : nat) (s : state) : Prop :=
+  fidx s = j ->
+  (forall ts sc ph owe, cs s j = Some (CVal ts sc false ph owe) -> gate_ts s j < ts) /\
+  (st s j = Unconfirmed -> gate_ts s j < unconf s j).
+
+Lemma clock_mono_step s e s' : step b s e = Some s' -> clock s <= clock s'.
+Proof.
+  intros H. unfold_step H.
+  destruct e; unfold_do H; crunch H; subst; simpl; auto.
+  all: try (destruct first; simpl; lia).
+  all: try mark_inv; try lia.
+  all: try (rewrite M4; lia).
+Qed.
+
+Lemma carried_clock_step s e s' :
+  inv1 b s -> carried s < clock s -> step b s e = Some s' -> carried s' < clock s'.
+Proof.
+  intros I1 Hc H. pose proof (clock_mono_step _ _ _ H) as Hm. unfold_step H.
+  destruct e; unfold_do H; crunch H; subst; simpl in *; auto; try lia.
+  all: try (destruct first; simpl; lia).
+  all: try mark_inv; try (rewrite ?M8, ?M4 in *; lia).
+  all: bool_hyps; subst.
+  all: pose proof (i1_lower b s I1 (fidx s)); lia.
+Qed.
+
+Lemma carried_clock_reachable tr s : run_trace b init tr = Some s -> carried s < clock s.
+Proof.
+  assert (G : forall tr s0 s, Inv b s0 -> carried s0 < clock s0 -> run_trace b s0 tr = Some s -> carried s < clock s).
+  { clear tr s. induction tr as [|e tr IH]; simpl; intros s0 s I Hc H.
+    - inversion H; subst; auto.
+    - destruct (step b s0 e) as [s1|] eqn:E; [|discriminate].
+      apply (IH s1 s); auto; [eapply Inv_step; eauto|].
+      destruct I as (I1 & _). eapply carried_clock_step; eauto. }
+  intros H. apply (G tr init s (Inv_init b)); [simpl; lia|exact H].
+Qed.
+
+Lemma gate_keep j s s' :
+  gate j s -> fidx s' = fidx s -> cs s' j = cs s j -> st s' j = st s j -> lower s' j = lower s j ->
+  carried s' = carried s -> unconf s' j = unconf s j -> gate j s'.
+Proof.
+  intros G Hf Hc Hs Hl Hca Hu Hj. unfold gate_ts. rewrite Hc, Hs, Hl, Hca, Hu.
+  apply G. congruence.
+Qed.
+
+Lemma cexec_not_unconfirmed s j m p log bl pub ph owe w :
+  inv1 b s -> cs s j = Some (CExec m p log bl pub ph owe w) -> st s j <> Unconfirmed.
+Proof.
+  intros I1 E. pose proof (i1_cs b s I1 j) as C. unfold cs_ok in C. rewrite E in C.
+  destruct C as (_ & _ & C). destruct ph; try (rewrite C; discriminate).
+  destruct C as [C|C]; rewrite C; discriminate.
+Qed.
+
+Lemma cval_status s j ts sc conf ph owe :
+  inv1 b s -> cs s j = Some (CVal ts sc conf ph owe) ->
+  ts < clock s /\ unconf s j <= ts /\
+  (ph <> VStatusSet -> st s j = Validating) /\
+  (ph = VStatusSet -> conf = true -> st s j = Conflict).
+Proof.
+  intros I1 E. pose proof (i1_cs b s I1 j) as C. unfold cs_ok in C. rewrite E in C.
+  destruct C as (A & B & _ & C). repeat split; auto.
+  - intros Hp. destruct ph; auto. congruence.
+  - intros -> ->. destruct C as [[_ C]|[C _]]; [exact C|discriminate].
+Qed.
+
+(* the transaction below the head holds no critical section *)
+Lemma no_cs_below_head s k : inv1 b s -> k < fidx s -> cs s k = None.
+Proof.
+  intros I1 Hk. destruct (cs s k) eqn:E; auto. exfalso.
+  apply (cs_not_final b s k I1); [congruence|]. apply (i1_final b s I1). exact Hk.
+Qed.
+
+Ltac rw_frames :=
+  repeat match goal with H : ?f ?x = ?f ?y |- _ => rewrite H end.
+
+Ltac other_tx j s G :=
+  apply (gate_keep j s _ G); simpl; rw_frames; rewrite ?upd_other by auto; auto.
+
+(* the new critical section of j is an execution: nothing to show for the first clause; j is not
+   Unconfirmed *)
+Ltac same_exec I1 :=
+  let Hf := fresh "Hf" in intros Hf; split;
+  [ let Hc := fresh "Hc" in intros ? ? ? ? Hc; simpl in Hc; rewrite ?upd_same in Hc; discriminate Hc
+  | let Hst := fresh "Hst" in intros Hst; simpl in Hst;
+    repeat match goal with H : ?f ?x = ?f ?y |- _ => rewrite H in Hst end; rewrite ?upd_same in Hst;
+    try discriminate Hst;
+    try (exfalso; eapply cexec_not_unconfirmed; eauto; fail) ].
+
+Ltac open_gate Hf Hc Hst :=
+  intros Hf; split; [intros ? ? ? ? Hc | intros Hst]; simpl in *; rewrite ?upd_same in *.
+
+Theorem gate_step j s e s' :
+  Inv b s -> carried s < clock s -> j <= fidx s -> gate j s -> step b s e = Some s' -> gate j s'.
+Proof.
+  intros I Hcc Hjf G H. pose proof I as (I1 & I2 & I3 & I4 & I5 & I6).
+  unfold_step H.
+  destruct e; unfold_do H; crunch H; subst; try exact G; try mark_inv.
+  all: try (apply (gate_keep j s _ G); reflexivity).
+  all: try (destruct first; [apply (gate_keep j s _ G); reflexivity|exact G]).
+  all: destruct (Nat.eq_dec j j0) as [<-|Hne].
+  all: try (other_tx j s G; fail).
+  all: try (same_exec I1; fail).
+  - (* XClaim, Initial *) open_gate Hf Hc Hst; [|discriminate]. rewrite Hc in Hg0. discriminate.
+  - (* XClaim, Conflict *) open_gate Hf Hc Hst; [|discriminate]. rewrite Hc in Hg0. discriminate.
+  - (* XBegin *) open_gate Hf Hc Hst; [discriminate|].
+    apply andb_prop in Hg. destruct Hg as [Hs _]. apply status_eqb_eq in Hs. congruence.
+  - (* XMarkEst in a failed validation *) open_gate Hf Hc Hst; [discriminate|].
+    rewrite M1 in Hst. destruct (cval_status _ _ _ _ _ _ _ I1 E) as (_ & _ & Hv & _).
+    rewrite Hv in Hst; [discriminate|discriminate].
+  - (* XStatus *) open_gate Hf Hc Hst; [discriminate|]. destruct conflict; discriminate.
+  - (* Tick in a failed validation *) open_gate Hf Hc Hst; [discriminate|].
+    destruct (cval_status _ _ _ _ _ _ _ I1 E) as (_ & _ & Hv & _). rewrite Hv in Hst; discriminate.
+  - (* Lower from an execution of another transaction *)
+    destruct (Nat.eq_dec i j) as [->|Hi].
+    + intros Hf. exfalso. simpl in Hf. apply orb_prop in Hg. destruct Hg as [Hg|Hg]; apply Nat.eqb_eq in Hg; [congruence|].
+      subst j. rewrite (no_cs_below_head s j0 I1) in E; [discriminate|lia].
+    + apply (gate_keep j s _ G); simpl; rewrite ?upd_other by auto; auto.
+  - (* Lower from a failed validation of j *) open_gate Hf Hc Hst; [discriminate|].
+    destruct (cval_status _ _ _ _ _ _ _ I1 E) as (_ & _ & Hv & _). rewrite Hv in Hst; discriminate.
+  - (* Lower from a failed validation of another transaction *)
+    destruct (Nat.eq_dec i j) as [->|Hi].
+    + intros Hf. exfalso. simpl in Hf. apply orb_prop in Hg. destruct Hg as [Hg|Hg]; apply Nat.eqb_eq in Hg; [congruence|].
+      subst j. rewrite (no_cs_below_head s j0 I1) in E; [discriminate|lia].
+    + apply (gate_keep j s _ G); simpl; rewrite ?upd_other by auto; auto.
+  - (* VClaim, Executed *) open_gate Hf Hc Hst; [|discriminate]. rewrite Hc in Hg0. discriminate.
+  - (* VClaim, Unconfirmed *) open_gate Hf Hc Hst; [|discriminate]. rewrite Hc in Hg0. discriminate.
+  - (* VBegin *) open_gate Hf Hc Hst.
+    + injection Hc as <- _ _ _. bool_hyps. unfold gate_ts. simpl.
+      pose proof (i1_lower b s I1 j). lia.
+    + bool_hyps. match goal with Hs : status_eqb _ _ = true |- _ => apply status_eqb_eq in Hs; congruence end.
+  - (* VCheck *) open_gate Hf Hc Hst.
+    + injection Hc as <- _ Hcf _ _. apply orb_false_iff in Hcf. destruct Hcf as [-> _].
+      destruct (G Hf) as [G1 _]. apply (G1 _ _ _ _ E).
+    + destruct (cval_status _ _ _ _ _ _ _ I1 E) as (_ & _ & Hv & _). rewrite Hv in Hst; discriminate.
+  - (* VBen *) open_gate Hf Hc Hst.
+    + injection Hc as <- _ Hcf _ _. apply orb_false_iff in Hcf. destruct Hcf as [-> _].
+      destruct (G Hf) as [G1 _]. apply (G1 _ _ _ _ E).
+    + destruct (cval_status _ _ _ _ _ _ _ I1 E) as (_ & _ & Hv & _). rewrite Hv in Hst; discriminate.
+  - (* VScanned *) open_gate Hf Hc Hst.
+    + injection Hc as <- _ Hcf _ _. subst conf. destruct (G Hf) as [G1 _]. apply (G1 _ _ _ _ E).
+    + destruct (cval_status _ _ _ _ _ _ _ I1 E) as (_ & _ & Hv & _). rewrite Hv in Hst; discriminate.
+  - (* VStatus, no conflict *) open_gate Hf Hc Hst.
+    + injection Hc as <- _ _ _. destruct (G Hf) as [G1 _]. apply (G1 _ _ _ _ E).
+    + destruct (G Hf) as [G1 _]. pose proof (G1 _ _ _ _ E) as Hlt. unfold gate_ts in *. simpl. lia.
+  - (* VEnd *) open_gate Hf Hc Hst; [discriminate|].
+    destruct (G Hf) as [_ G2]. apply G2. exact Hst.
+  - (* Finalize j *) intros Hf. simpl in Hf. lia.
+  - (* Finalize of another transaction: it is the head, so it is j *)
+    intros Hf. simpl in Hf. bool_hyps. lia.
+Qed.
+
+Theorem gate_run j s tr s' :
+  Inv b s -> carried s < clock s -> j <= fidx s -> gate j s -> run_trace b s tr = Some s' -> gate j s'.
+Proof.
+  revert s; induction tr as [|e tr IH]; simpl; intros s I Hc Hj G H.
+  - inversion H; subst; auto.
+  - destruct (step b s e) as [s1|] eqn:E; [|discriminate].
+    apply (IH s1); auto.
+    + eapply Inv_step; eauto.
+    + destruct I as (I1 & _). eapply carried_clock_step; eauto.
+    + pose proof (fidx_mono_step _ _ _ E). lia.
+    + eapply gate_step; eauto.
+Qed.
+
+(* a validation of the head transaction that begins at the head and finds no conflict makes the
+   finality step enabled: the guard holds in every later state in which j is still the head,
+   Unconfirmed and unlocked *)
+Theorem head_validation_is_finalisable tr1 s0 j n ts s1 tr2 s :
+  run_trace b init tr1 = Some s0 -> j = fidx s0 -> step b s0 (VBegin j n ts) = Some s1 ->
+  run_trace b s1 tr2 = Some s ->
+  fidx s = j -> st s j = Unconfirmed -> cs s j = None -> finished s = false ->
+  exists s', step b s (Finalize j (inc s j) (Nat.max (carried s) (lower s j))) = Some s'.
+Proof.
+  intros H0 Hj Hb H2 Hf Hst Hcs Hfin.
+  pose proof (Inv_reachable b tr1 s0 H0) as I0. pose proof I0 as (I01 & _).
+  pose proof (carried_clock_reachable tr1 s0 H0) as Hc0.
+  assert (I1 : Inv b s1) by (eapply Inv_step; eauto).
+  assert (Hc1 : carried s1 < clock s1) by (eapply carried_clock_step; eauto).
+  assert (Hf1 : j <= fidx s1) by (pose proof (fidx_mono_step _ _ _ Hb); lia).
+  (* the gate holds right after VBegin *)
+  assert (G1 : gate j s1).
+  { clear H2. unfold_step Hb. unfold_do Hb. crunch Hb; subst. bool_hyps. subst.
+    intros _. split.
+    - intros ts1 sc ph owe Hc. simpl in Hc. rewrite upd_same in Hc. injection Hc as <- _ _ _.
+      unfold gate_ts. simpl. pose proof (i1_lower b s0 I01 (fidx s0)). lia.
+    - simpl. intros Hs. match goal with Hx : status_eqb _ _ = true |- _ => apply status_eqb_eq in Hx; congruence end. }
+  pose proof (gate_run j s1 tr2 s I1 Hc1 Hf1 G1 H2) as G.
+  destruct (G Hf) as [_ G2]. specialize (G2 Hst). unfold gate_ts in G2.
+  assert (Is : Inv b s) by (eapply Inv_run; eauto). destruct Is as (Is1 & _).
+  assert (Hjn : j < ntx b).
+  { destruct (Nat.lt_ge_cases j (ntx b)) as [|Hge]; auto.
+    destruct (i1_range b s Is1 j Hge) as [Hi _]. congruence. }
+  unfold step. rewrite Hfin. unfold do_finalize. rewrite Hf, Hcs, Hst, !Nat.eqb_refl. simpl.
+  apply Nat.ltb_lt in Hjn. rewrite Hjn. simpl.
+  apply Nat.ltb_lt in G2. rewrite G2. simpl. eauto.
+Qed.
+
 End P.
